@@ -1,7 +1,388 @@
-(* Props/C11.v — placeholder: examples on the read-ahead model; theorems are added as the proofs land. *)
+(* Props/C11.v — C11: requests are read and delivered without waiting for earlier ones on the same
+   connection to be answered: in a pipeline whose requests all have bodies that are absent or at
+   most 1024 bytes (none asking for 100-continue), every request becomes available to the
+   application while none has been answered. A request with a larger or chunked body delays its
+   successors only until that body has been read to its end or the request has been answered or
+   dropped.
+
+   Model: Http/Ahead.v. `ahead c st` = (the targets of the requests the connection thread can parse
+   and hand over while NONE has been answered, why it stops); `ahead_two c a st` = (those, the ones
+   that become obtainable after the application did `a` to the request holding the socket reader).
+   Proofs: Http/AheadFacts.v, Http/AheadReleaseFacts.v. Vocabulary (AheadFacts.v):
+     cl_value v n       v is an accepted Content-Length value denoting n: v <> [], all digits,
+                        parse_dec v = Some n (so n < 2^64); `print_dec n` is one (c11_cl_value_print)
+     hdrs r             the headers of the abstract head r (HeadFacts.req_head) as the parser yields them
+     absent n hs        no header named n;   expects hs = an Expect header is present;
+     expect_ok hs       no Expect header or Expect: 100-continue;   has_te hs = a Transfer-Encoding header
+     pelem              a pipeline element: head, the optional blanks of its rendering, body bytes
+     small_head r       wf_head r (so version 0.9 / 1.0 / 1.1), no Transfer-Encoding, no Expect, and
+                        last_request = false: no Connection header containing close or upgrade, and
+                        for HTTP/1.0 one containing keep-alive
+     small_body hs b    no Content-Length and b = [], or Content-Length v, cl_value v n, n <= 1024, len b = n
+     small_elem e       small_head, wf_ows, small_body
+     render_pipe es     the concatenated renderings (head, then body) ;  targets es = their request targets
+     limited_head r n   wf_head, no Transfer-Encoding, no upgrade, expect_ok, Content-Length denoting n with
+                        1024 < n, or 0 < n together with Expect (: 100-continue)
+     chunked_head r     wf_head, a Transfer-Encoding header, no upgrade, expect_ok, Content-Length absent or valid
+     upgrade_head r     wf_head, a Connection header containing upgrade, expect_ok, Content-Length absent or valid
+     keeps_alive r      last_request (rq_version r) (hdrs r) = false
+     final r            last_request (rq_version r) (hdrs r) = true: Connection containing close or upgrade,
+                        or HTTP/1.0 without keep-alive — ClientConnection::next parses nothing after r *)
 From TH Require Import Base.Bytes Http.Response Http.Request Http.Body Http.Serve Http.Ahead.
+From TH Require Import Http.HeadFacts Http.FramingBodyFacts Http.ChunkedFacts Http.ChunkedReader
+                       Http.AheadFacts Http.AheadReleaseFacts.
 Open Scope char_scope.
-Definition c11_get (t : string) : bytes := s "GET " ++ s t ++ s " HTTP/1.1" ++ CRLF ++ CRLF.
-Example c11_example_all_available :
-  fst (ahead fixed (mkS (c11_get "/a" ++ c11_get "/b" ++ c11_get "/c") true)) = [s "/a"; s "/b"; s "/c"].
+
+(* ---- 1. the threshold: the body is read BEFORE the request is delivered (so that the request
+   gives the socket reader back at once) exactly when there is no Transfer-Encoding, the first
+   Content-Length is a valid number n with 0 < n <= 1024, there is no Expect header (100-continue
+   gives the streamed reader, any other value is refused) and the first Connection header does not
+   contain "upgrade" in any case ---- *)
+Theorem c11_threshold :
+  forall hs n,
+    (exists bl ex, framing fixed hs = FrOk (KBuffered n) bl ex) <->
+    header_value "Transfer-Encoding" hs = None /\
+    (exists v, header_value "Content-Length" hs = Some v /\ cl_value v n) /\
+    (0 < n <= 1024)%N /\
+    header_value "Expect" hs = None /\
+    wants_upgrade hs = false.
+Proof. exact threshold. Qed.
+Print Assumptions c11_threshold.
+
+Theorem c11_cl_value_print : forall n, (n < USIZE_BOUND)%N -> cl_value (print_dec n) n.
+Proof. exact cl_value_print. Qed.
+Print Assumptions c11_cl_value_print.
+
+(* ---- 2. a pipeline of ANY number of small requests, followed by bytes that start no complete
+   head: every request is obtainable while none has been answered ---- *)
+Theorem c11_small_pipeline_all_available :
+  forall es tail eof, Forall small_elem es -> read_head fixed tail = HeadEof ->
+    ahead fixed (mkS (render_pipe es ++ tail) eof) = (targets es, AEnd).
+Proof. exact small_pipeline_all. Qed.
+Print Assumptions c11_small_pipeline_all_available.
+
+(* AEnd is the end of the input, not the end of the fuel: every amount of fuel above the number of
+   requests gives the same answer, and the amount `ahead` uses, |input| + 1, is above it *)
+Theorem c11_small_pipeline_fuel :
+  forall es tail eof fuel, Forall small_elem es -> read_head fixed tail = HeadEof ->
+    (List.length es < fuel)%nat ->
+    ahead_loop fixed fuel (mkS (render_pipe es ++ tail) eof) [] = (targets es, AEnd).
+Proof. exact small_pipeline_fuel. Qed.
+Print Assumptions c11_small_pipeline_fuel.
+Theorem c11_small_pipeline_fuel_ok :
+  forall es tail, (List.length es < S (List.length (render_pipe es ++ tail)))%nat.
+Proof. exact small_pipeline_fuel_ok. Qed.
+Print Assumptions c11_small_pipeline_fuel_ok.
+
+(* ---- 3. after k small requests, a request with a streamed body is delivered (k+1 targets), holds
+   the reader, and nothing behind its head is consumed: `rest` — its body and all later requests —
+   is still on the connection; the successors are NOT obtainable yet. The flag of AHolds says
+   whether the holder ends the connection ---- *)
+Theorem c11_large_body_holds :
+  forall es r o n rest eof, Forall small_elem es -> limited_head r n -> wf_ows o = true ->
+    ahead fixed (mkS (render_pipe es ++ render_req_head r o ++ rest) eof)
+    = (targets es ++ [rq_target r], AHolds (BLimited n) (mkS rest eof) (last_request (rq_version r) (hdrs r))).
+Proof. exact holds_limited. Qed.
+Print Assumptions c11_large_body_holds.
+
+Theorem c11_chunked_body_holds :
+  forall es r o rest eof, Forall small_elem es -> chunked_head r -> wf_ows o = true ->
+    ahead fixed (mkS (render_pipe es ++ render_req_head r o ++ rest) eof)
+    = (targets es ++ [rq_target r], AHolds (BChunked None false) (mkS rest eof) (last_request (rq_version r) (hdrs r))).
+Proof. exact holds_chunked. Qed.
+Print Assumptions c11_chunked_body_holds.
+
+Theorem c11_upgrade_holds :
+  forall es r o rest eof, Forall small_elem es -> upgrade_head r -> wf_ows o = true ->
+    ahead fixed (mkS (render_pipe es ++ render_req_head r o ++ rest) eof)
+    = (targets es ++ [rq_target r], AHolds BUpgrade (mkS rest eof) true).
+Proof. exact holds_upgrade. Qed.
+Print Assumptions c11_upgrade_holds.
+
+(* ---- 4. what releases the successors. Content-Length body, all of it on the connection, then
+   small requests; the holder keeps the connection alive (used: it gives AHolds _ _ false): ---- *)
+Theorem c11_released_by_going_away :
+  forall pre post r o body tail eof,
+    Forall small_elem pre -> Forall small_elem post -> limited_head r (len body) -> wf_ows o = true ->
+    read_head fixed tail = HeadEof -> keeps_alive r ->
+    ahead_two fixed RlGoesAway (mkS (render_pipe pre ++ render_req_head r o ++ body ++ render_pipe post ++ tail) eof)
+    = (targets pre ++ [rq_target r], targets post).
+Proof. exact released_by_going_away_limited. Qed.
+Print Assumptions c11_released_by_going_away.
+
+Theorem c11_released_by_reading_to_end :
+  forall pre post r o body tail eof,
+    Forall small_elem pre -> Forall small_elem post -> limited_head r (len body) -> wf_ows o = true ->
+    read_head fixed tail = HeadEof -> keeps_alive r -> (len body < ALL)%N ->
+    ahead_two fixed RlReadAll (mkS (render_pipe pre ++ render_req_head r o ++ body ++ render_pipe post ++ tail) eof)
+    = (targets pre ++ [rq_target r], targets post).
+Proof. exact released_by_reading_to_end_limited. Qed.
+Print Assumptions c11_released_by_reading_to_end.
+
+(* reading m <= |body| bytes (even all of them, as long as end-of-stream has not been seen):
+   whatever follows the body stays out of reach *)
+Theorem c11_not_released_by_partial_read :
+  forall pre r o body (rest : bytes) eof m,
+    Forall small_elem pre -> limited_head r (len body) -> wf_ows o = true -> (m <= len body)%N ->
+    ahead_two fixed (RlReadPart m) (mkS (render_pipe pre ++ render_req_head r o ++ body ++ rest) eof)
+    = (targets pre ++ [rq_target r], []).
+Proof.
+  intros pre r o body rest eof m Hpre Hr Ho Hm.
+  rewrite <- (app_nil_l rest). change ([] ++ rest) with (render_pipe [] ++ rest).
+  now apply not_released_by_partial_read_limited.
+Qed.
+Print Assumptions c11_not_released_by_partial_read.
+
+(* the same for a chunked body: any chunking with accepted size lines, no trailers *)
+Theorem c11_released_by_going_away_chunked :
+  forall pre post r o chs last tail eof,
+    Forall small_elem pre -> Forall small_elem post -> chunked_head r -> wf_ows o = true ->
+    Forall chunk_ok chs -> size_line_ok last 0 -> read_head fixed tail = HeadEof -> keeps_alive r ->
+    ahead_two fixed RlGoesAway (mkS (render_pipe pre ++ render_req_head r o ++ enc chs last (render_pipe post ++ tail)) eof)
+    = (targets pre ++ [rq_target r], targets post).
+Proof. exact released_by_going_away_chunked. Qed.
+Print Assumptions c11_released_by_going_away_chunked.
+
+Theorem c11_released_by_reading_to_end_chunked :
+  forall pre post r o chs last tail eof,
+    Forall small_elem pre -> Forall small_elem post -> chunked_head r -> wf_ows o = true ->
+    Forall chunk_ok chs -> size_line_ok last 0 -> read_head fixed tail = HeadEof -> keeps_alive r ->
+    (len (payload chs) < ALL)%N ->
+    ahead_two fixed RlReadAll (mkS (render_pipe pre ++ render_req_head r o ++ enc chs last (render_pipe post ++ tail)) eof)
+    = (targets pre ++ [rq_target r], targets post).
+Proof. exact released_by_reading_to_end_chunked. Qed.
+Print Assumptions c11_released_by_reading_to_end_chunked.
+
+Theorem c11_not_released_by_partial_read_chunked :
+  forall pre r o chs last (rest : bytes) eof m,
+    Forall small_elem pre -> chunked_head r -> wf_ows o = true ->
+    Forall chunk_ok chs -> size_line_ok last 0 -> (m <= len (payload chs))%N ->
+    ahead_two fixed (RlReadPart m) (mkS (render_pipe pre ++ render_req_head r o ++ enc chs last rest) eof)
+    = (targets pre ++ [rq_target r], []).
+Proof.
+  intros pre r o chs last rest eof m Hpre Hr Ho Hc Hl Hm.
+  rewrite <- (app_nil_l rest). change ([] ++ rest) with (render_pipe [] ++ rest).
+  now apply not_released_by_partial_read_chunked.
+Qed.
+Print Assumptions c11_not_released_by_partial_read_chunked.
+
+(* ---- 5. the converse: a holder that ENDS the connection releases nothing — whatever follows its
+   head (`rest`: body, further requests, anything) and whatever the application does with it ---- *)
+Theorem c11_nothing_after_final_holder :
+  forall pre r o n rest eof a, Forall small_elem pre -> limited_head r n -> wf_ows o = true -> final r ->
+    ahead_two fixed a (mkS (render_pipe pre ++ render_req_head r o ++ rest) eof) = (targets pre ++ [rq_target r], []).
+Proof. exact nothing_after_final_limited. Qed.
+Print Assumptions c11_nothing_after_final_holder.
+
+Theorem c11_nothing_after_final_holder_chunked :
+  forall pre r o rest eof a, Forall small_elem pre -> chunked_head r -> wf_ows o = true -> final r ->
+    ahead_two fixed a (mkS (render_pipe pre ++ render_req_head r o ++ rest) eof) = (targets pre ++ [rq_target r], []).
+Proof. exact nothing_after_final_chunked. Qed.
+Print Assumptions c11_nothing_after_final_holder_chunked.
+
+(* an upgrade request always ends the connection *)
+Theorem c11_nothing_after_upgrade :
+  forall pre r o rest eof a, Forall small_elem pre -> upgrade_head r -> wf_ows o = true ->
+    ahead_two fixed a (mkS (render_pipe pre ++ render_req_head r o ++ rest) eof) = (targets pre ++ [rq_target r], []).
+Proof. exact nothing_after_upgrade. Qed.
+Print Assumptions c11_nothing_after_upgrade.
+
+(* the read loops of ahead_two, with the fuel ahead_two gives them (|pending bytes| + 1): "read to the
+   end" really obtains the whole body and sees end-of-stream with the connection exactly behind the
+   body; "read m bytes" really obtains m bytes (EndCount is the count reached, not the fuel used up) *)
+Theorem c11_read_all_obtains_body :
+  forall body x e, (len body < ALL)%N ->
+    exists acc' r',
+      take fixed (S (List.length (body ++ x))) ALL 4096 (BLimited (len body)) (mkS (body ++ x) e) [] []
+      = (acc', EndEof, r', mkS x e, []) /\ r' <> BUpgrade /\ pieces_bytes acc' = body.
+Proof. exact read_all_limited. Qed.
+Print Assumptions c11_read_all_obtains_body.
+Theorem c11_read_part_obtains_count :
+  forall body x e m, (m <= len body)%N ->
+    exists acc' r' st',
+      take fixed (S (List.length (body ++ x))) m 7 (BLimited (len body)) (mkS (body ++ x) e) [] []
+      = (acc', EndCount, r', st', []) /\ len (pieces_bytes acc') = m.
+Proof. exact read_part_limited. Qed.
+Print Assumptions c11_read_part_obtains_count.
+Theorem c11_read_all_obtains_body_chunked :
+  forall chs last x e, Forall chunk_ok chs -> size_line_ok last 0 -> (len (payload chs) < ALL)%N ->
+    exists acc' r',
+      take fixed (S (List.length (enc chs last x))) ALL 4096 (BChunked None false) (mkS (enc chs last x) e) [] []
+      = (acc', EndEof, r', mkS x e, []) /\ r' <> BUpgrade /\ pieces_bytes acc' = payload chs.
+Proof. exact read_all_chunked. Qed.
+Print Assumptions c11_read_all_obtains_body_chunked.
+Theorem c11_read_part_obtains_count_chunked :
+  forall chs last x e, Forall chunk_ok chs -> size_line_ok last 0 ->
+  forall m, (m <= len (payload chs))%N ->
+    exists acc' r' st',
+      take fixed (S (List.length (enc chs last x))) m 7 (BChunked None false) (mkS (enc chs last x) e) [] []
+      = (acc', EndCount, r', st', []) /\ len (pieces_bytes acc') = m.
+Proof. exact read_part_chunked. Qed.
+Print Assumptions c11_read_part_obtains_count_chunked.
+
+(* ================= non-vacuity ================= *)
+Ltac vc := vm_compute; reflexivity.
+Definition xs (n : nat) : bytes := repeat "x" n.
+Definition c11_get (t : string) : pelem := mkPE (mkRq (s "GET") (s t) (1, 1)%N []) [] [].
+Definition c11_post (t : string) (cl : string) (body : bytes) : pelem :=
+  mkPE (mkRq (s "POST") (s t) (1, 1)%N [(s "Content-Length", s cl)]) [] body.
+
+(* [GET /a; POST /b with a 1024-byte body; GET /c]: all three *)
+Definition c11_pipe1 : list pelem := [c11_get "/a"; c11_post "/b" "1024" (xs 1024); c11_get "/c"].
+Example c11_example_pipe1_wire :
+  render_pipe c11_pipe1 =
+  s "GET /a HTTP/1.1" ++ CRLF ++ CRLF ++
+  s "POST /b HTTP/1.1" ++ CRLF ++ s "Content-Length:1024" ++ CRLF ++ CRLF ++ xs 1024 ++
+  s "GET /c HTTP/1.1" ++ CRLF ++ CRLF.
 Proof. vm_compute. reflexivity. Qed.
+Example c11_example_pipe1_small : Forall small_elem c11_pipe1.
+Proof.
+  constructor; [split; [vc|split; vc]|]. constructor; [|constructor; [split; [vc|split; vc]|constructor]].
+  split; [vc|split; [vc|]]. vm_compute. exists 1024%N. repeat split; try reflexivity; discriminate.
+Qed.
+Example c11_example_pipe1 :
+  ahead fixed (mkS (render_pipe c11_pipe1) true) = ([s "/a"; s "/b"; s "/c"], AEnd).
+Proof. vm_compute. reflexivity. Qed.
+(* ... also when the client keeps the connection open and has begun the next head *)
+Example c11_example_pipe1_open :
+  ahead fixed (mkS (render_pipe c11_pipe1 ++ s "GET /d HT") false) = ([s "/a"; s "/b"; s "/c"], AEnd).
+Proof. vm_compute. reflexivity. Qed.
+(* the 1024-byte body not complete yet: /b is not delivered (new_request waits for the bytes) *)
+Example c11_example_pipe1_short_body :
+  ahead fixed (mkS (s "GET /a HTTP/1.1" ++ CRLF ++ CRLF ++
+                    s "POST /b HTTP/1.1" ++ CRLF ++ s "Content-Length:1024" ++ CRLF ++ CRLF ++ xs 1000) false)
+  = ([s "/a"], AEnd).
+Proof. vm_compute. reflexivity. Qed.
+
+(* [POST /a with 1025 bytes; GET /b]: only /a; /b after /a went away or was read to its end, not
+   after 5 (or all 1025) bytes were read without seeing end-of-stream *)
+Definition c11_big : req_head := mkRq (s "POST") (s "/a") (1, 1)%N [(s "Content-Length", s "1025")].
+Definition c11_wire2 : bytes := render_req_head c11_big [] ++ xs 1025 ++ render_pipe [c11_get "/b"].
+Example c11_example_big_hyps : limited_head c11_big (len (xs 1025)) /\ keeps_alive c11_big.
+Proof.
+  split; [|vc]. split; [vc|]. split; [vc|]. split; [vc|]. split; [vc|].
+  exists (s "1025"). split; [vc|]. split; [split; [vm_compute; discriminate|split; vc]|].
+  left. vc.
+Qed.
+Example c11_example_big_holds :
+  ahead fixed (mkS c11_wire2 true)
+  = ([s "/a"], AHolds (BLimited 1025) (mkS (xs 1025 ++ s "GET /b HTTP/1.1" ++ CRLF ++ CRLF) true) false).
+Proof. vm_compute. reflexivity. Qed.
+Example c11_example_big_goes_away : ahead_two fixed RlGoesAway (mkS c11_wire2 true) = ([s "/a"], [s "/b"]).
+Proof. vm_compute. reflexivity. Qed.
+Example c11_example_big_read_all : ahead_two fixed RlReadAll (mkS c11_wire2 true) = ([s "/a"], [s "/b"]).
+Proof. vm_compute. reflexivity. Qed.
+Example c11_example_big_read_part : ahead_two fixed (RlReadPart 5) (mkS c11_wire2 true) = ([s "/a"], []).
+Proof. vm_compute. reflexivity. Qed.
+Example c11_example_big_read_exactly : ahead_two fixed (RlReadPart 1025) (mkS c11_wire2 true) = ([s "/a"], []).
+Proof. vm_compute. reflexivity. Qed.
+Example c11_example_big_read_beyond : ahead_two fixed (RlReadPart 1026) (mkS c11_wire2 true) = ([s "/a"], [s "/b"]).
+Proof. vm_compute. reflexivity. Qed.
+
+(* Expect: 100-continue turns even a 10-byte body into a streamed one *)
+Definition c11_expect : req_head :=
+  mkRq (s "POST") (s "/e") (1, 1)%N [(s "Content-Length", s "10"); (s "Expect", s "100-Continue")].
+Example c11_example_expect_hyps : limited_head c11_expect 10 /\ keeps_alive c11_expect.
+Proof.
+  split; [|vc]. split; [vc|]. split; [vc|]. split; [vc|]. split; [vc|].
+  exists (s "10"). split; [vc|]. split; [split; [vm_compute; discriminate|split; vc]|].
+  right. split; vc.
+Qed.
+Example c11_example_expect :
+  ahead_two fixed RlGoesAway
+    (mkS (render_pipe [c11_get "/a"] ++ render_req_head c11_expect [] ++ xs 10 ++ render_pipe [c11_get "/b"]) true)
+  = ([s "/a"; s "/e"], [s "/b"]).
+Proof. vm_compute. reflexivity. Qed.
+
+(* a chunked body in the middle of a pipeline *)
+Definition c11_chunked : req_head :=
+  mkRq (s "POST") (s "/u") (1, 1)%N [(s "Transfer-Encoding", s "chunked")].
+Definition c11_chunks : list chunk := [ (s "5", s "hello"); (s "+6;name=value", s "world!") ].
+Definition c11_wire3 : bytes :=
+  render_pipe [c11_get "/a"] ++ render_req_head c11_chunked [] ++
+  enc c11_chunks (s "0") (render_pipe [c11_post "/b" "3" (s "abc"); c11_get "/c"]).
+Example c11_example_chunked_wire :
+  c11_wire3 =
+  s "GET /a HTTP/1.1" ++ CRLF ++ CRLF ++
+  s "POST /u HTTP/1.1" ++ CRLF ++ s "Transfer-Encoding:chunked" ++ CRLF ++ CRLF ++
+  s "5" ++ CRLF ++ s "hello" ++ CRLF ++ s "+6;name=value" ++ CRLF ++ s "world!" ++ CRLF ++ s "0" ++ CRLF ++ CRLF ++
+  s "POST /b HTTP/1.1" ++ CRLF ++ s "Content-Length:3" ++ CRLF ++ CRLF ++ s "abc" ++
+  s "GET /c HTTP/1.1" ++ CRLF ++ CRLF.
+Proof. vm_compute. reflexivity. Qed.
+Example c11_example_chunked_hyps :
+  chunked_head c11_chunked /\ keeps_alive c11_chunked /\ Forall chunk_ok c11_chunks /\ size_line_ok (s "0") 0.
+Proof.
+  split; [split; [vc|]; split; [vc|]; split; [vc|]; split; [vc|]; vm_compute; exact I|]. split; [vc|].
+  split; [repeat constructor; try discriminate|].
+  - exists [], [], (s "5"), [], []. vm_compute. repeat split; auto; discriminate.
+  - exists [], ["+"], (s "6"), [], (s ";name=value"). vm_compute. repeat split; auto; try discriminate.
+    right. eexists. split; reflexivity.
+  - exists [], [], (s "0"), [], []. vm_compute. repeat split; auto; discriminate.
+Qed.
+Example c11_example_chunked_holds : fst (ahead fixed (mkS c11_wire3 true)) = [s "/a"; s "/u"].
+Proof. vm_compute. reflexivity. Qed.
+Example c11_example_chunked_goes_away :
+  ahead_two fixed RlGoesAway (mkS c11_wire3 true) = ([s "/a"; s "/u"], [s "/b"; s "/c"]).
+Proof. vm_compute. reflexivity. Qed.
+Example c11_example_chunked_read_all :
+  ahead_two fixed RlReadAll (mkS c11_wire3 true) = ([s "/a"; s "/u"], [s "/b"; s "/c"]).
+Proof. vm_compute. reflexivity. Qed.
+Example c11_example_chunked_read_part :
+  ahead_two fixed (RlReadPart 11) (mkS c11_wire3 true) = ([s "/a"; s "/u"], []).
+Proof. vm_compute. reflexivity. Qed.
+
+(* the tree as found does not drain an unread chunked body (D4): after the request went away the
+   rest of the body is taken for the next head and refused — /b and /c are lost *)
+Example c11_example_chunked_asfound :
+  ahead_two asfound RlGoesAway (mkS c11_wire3 true) = ([s "/a"; s "/u"], []).
+Proof. vm_compute. reflexivity. Qed.
+
+(* ================= the corners of the read-ahead (Http/Ahead.v against src/client.rs) =================
+   (A) an HTTP/2.0 head behind an unanswered request: the connection thread answers 505 through the
+       rejected request's OWN SequentialWriter (client.rs:232-245), whose write() first waits until the
+       previous writer has been dropped (sequential.rs, `trigger.recv()`), i.e. until the previous
+       request has been ANSWERED: nothing behind it is obtainable while none has been answered *)
+Example c11_example_505_after_unanswered :
+  ahead fixed (mkS (s "GET /a HTTP/1.1" ++ CRLF ++ CRLF ++ s "GET /b HTTP/2.0" ++ CRLF ++ CRLF ++
+                    s "GET /c HTTP/1.1" ++ CRLF ++ CRLF) true)
+  = ([s "/a"], AWaitsTurn).
+Proof. vm_compute. reflexivity. Qed.
+(* ... at the head of the connection there is nothing to wait for: 505, the request is dropped, on *)
+Example c11_example_505_first :
+  ahead fixed (mkS (s "GET /b HTTP/2.0" ++ CRLF ++ CRLF ++ s "GET /c HTTP/1.1" ++ CRLF ++ CRLF) true)
+  = ([s "/c"], AEnd).
+Proof. vm_compute. reflexivity. Qed.
+(* (B) a holder that ends the connection (Connection: close): /b is never delivered, whatever is
+       done with /a; the sequential model Serve.serve agrees *)
+Definition c11_close : req_head :=
+  mkRq (s "POST") (s "/a") (1, 1)%N [(s "Connection", s "close"); (s "Content-Length", s "1025")].
+Definition c11_close_wire : bytes := render_req_head c11_close [] ++ xs 1025 ++ render_pipe [c11_get "/b"].
+Example c11_example_close_hyps : limited_head c11_close 1025 /\ final c11_close.
+Proof.
+  split; [|vc]. split; [vc|]. split; [vc|]. split; [vc|]. split; [vc|].
+  exists (s "1025"). split; [vc|]. split; [split; [vm_compute; discriminate|split; vc]|].
+  left. vc.
+Qed.
+Example c11_example_close_final :
+  ahead fixed (mkS c11_close_wire true)
+  = ([s "/a"], AHolds (BLimited 1025) (mkS (xs 1025 ++ s "GET /b HTTP/1.1" ++ CRLF ++ CRLF) true) true) /\
+  ahead_two fixed RlGoesAway (mkS c11_close_wire true) = ([s "/a"], []) /\
+  ahead_two fixed RlReadAll (mkS c11_close_wire true) = ([s "/a"], []) /\
+  ahead_two fixed (RlReadPart 2000) (mkS c11_close_wire true) = ([s "/a"], []) /\
+  map d_url (o_reqs (serve fixed (s "D") [] (mkA [] (FRespond 200 (s "ok") true)) c11_close_wire true)) = [s "/a"].
+Proof. repeat split; vm_compute; reflexivity. Qed.
+Definition c11_upgrade : req_head := mkRq (s "GET") (s "/a") (1, 1)%N [(s "Connection", s "Upgrade")].
+Example c11_example_upgrade_hyps : upgrade_head c11_upgrade.
+Proof. split; [vc|]. split; [vc|]. split; [vc|]. vm_compute. exact I. Qed.
+Example c11_example_upgrade_final :
+  ahead_two fixed RlGoesAway (mkS (render_req_head c11_upgrade [] ++ render_pipe [c11_get "/b"]) true) = ([s "/a"], []).
+Proof. vm_compute. reflexivity. Qed.
+(* (C) 505 for a request with Connection: upgrade at the head of the connection: rq.into_writer()
+       drops the request and with it the raw reader, `continue` parses the next head
+       (no_more_requests is only set behind the version check); Serve.serve agrees *)
+Definition c11_505_upgrade_wire : bytes :=
+  s "GET /a HTTP/2.0" ++ CRLF ++ s "Connection: upgrade" ++ CRLF ++ CRLF ++ s "GET /b HTTP/1.1" ++ CRLF ++ CRLF.
+Example c11_example_505_upgrade :
+  ahead fixed (mkS c11_505_upgrade_wire true) = ([s "/b"], AEnd) /\
+  map d_url (o_reqs (serve fixed (s "D") [] (mkA [] (FRespond 200 (s "ok") true)) c11_505_upgrade_wire true)) = [s "/b"].
+Proof. split; vm_compute; reflexivity. Qed.
